@@ -67,6 +67,9 @@ Line-protocol operations for the module resolver (C13).
                                     (a module cycle: the statement of C13 is silent there)
   mod.discover <decls>
         -> <decls of e/i only>       the `mod` items the resolver visits (`discItems`), re-encoded
+  mod.parse_macro <decls: exactly one m or t item>
+        -> cfg_if:<mods> | cfg_match:<mods>     `parse_cfg_if` / `parse_cfg_match` (`parseMacroBody`):
+                                     mods = err | _ | e<name hex> / i<name hex> joined by `,` (the `mod` items returned)
   mod.expand <decls>
         -> <decls of e/i only>       the `mod` items of the expansion (`expItems`, specification)
   mod.hyps <fs> <root path>
@@ -368,6 +371,20 @@ def handle (op : String) (args : List String) : Option String :=
   | "mod.discover", [ds] => do
     let ds ← decDecls ds
     pure (encDecls (discItems ds))
+  | "mod.parse_macro", [ds] => do
+    let ds ← decDecls ds
+    let encMod : SItem → String := fun it => match it with
+      | .ext n _ => "e" ++ encChars n
+      | .inline n _ _ => "i" ++ encChars n
+      | _ => "?"
+    let encMods : Option (List SItem) → String := fun r => match r with
+      | none => "err"
+      | some [] => "_"
+      | some ms => String.intercalate "," (ms.map encMod)
+    match ds with
+    | [.cfgIf sh bs] => pure ("cfg_if:" ++ encMods (parseMacroBody sh bs))
+    | [.cfgMatch sh bs] => pure ("cfg_match:" ++ encMods (parseMacroBody sh bs))
+    | _ => none
   | "mod.expand", [ds] => do
     let ds ← decDecls ds
     pure (encDecls (expItems ds))
